@@ -47,6 +47,12 @@ type c19Case struct {
 	Splice []string `json:"splice,omitempty"`
 	// Readers (k2e): number of reader tasks.
 	Readers int `json:"readers,omitempty"`
+	// Disk (k1): the texts of task i lie under t<i>/ of a shared read-only
+	// simulated disk; the task puts that directory on its search path, reads the
+	// modules listed in Roots[i] by name and lets Process fetch what they import
+	// or include: findFile / findInDir / AddPath run in parallel too.
+	Disk  bool       `json:"disk,omitempty"`
+	Roots [][]string `json:"roots,omitempty"`
 }
 
 type c19Driver struct{}
@@ -65,7 +71,7 @@ func (c19Driver) Tier(t string) core.Tier {
 func (c19Driver) Info() core.Info {
 	return core.Info{
 		Race: true,
-		Rule: "A case is a schedule (one integer + tick-switch probability 0, 1/200 or 1/20) and either (K1) 2-4 tasks that each create a Modules, load their own generated module set, Process and dump it, or (K2e, 1 run in 13) a set whose Process reported errors, its module entries and their children fetched beforehand and read by 2-5 tasks through Path, GetErrors, ReadOnly, Kind, or (K2) one processed set read by 2-6 tasks issuing 5-40 seeded operations each (ToEntry of cached nodes, Find of absolute and relative paths of existing nodes, Namespace, InstantiatingModule, FindModuleByNamespace incl. first-time lookups of one namespace by several tasks, ReadOnly, DefaultValues, SingleDefaultValue, GetErrors, Path, IsDir/IsLeaf..., and in a separate mix Print into a private buffer). " +
+		Rule: "A case is a schedule (one integer + tick-switch probability 0, 1/200 or 1/20) and either (K1) 2-4 tasks that each create a Modules, load their own generated module set, Process and dump it (a quarter of them from a shared read-only simulated disk: own directory on the search path, Read by module name, imports and includes fetched by Process), or (K2e, 1 run in 13) a set whose Process reported errors, its module entries and their children fetched beforehand and read by 2-5 tasks through Path, GetErrors, ReadOnly, Kind, or (K2) one processed set read by 2-6 tasks issuing 5-40 seeded operations each (ToEntry of cached nodes, Find of absolute and relative paths of existing nodes, Namespace, InstantiatingModule, FindModuleByNamespace incl. first-time lookups of one namespace by several tasks, ReadOnly, DefaultValues, SingleDefaultValue, GetErrors, Path, IsDir/IsLeaf..., and in a separate mix Print into a private buffer). " +
 			"Every lock acquisition and release offers a switch; a task may be descheduled while holding a lock (a blocked task yields instead of parking). Non-trivial: the schedule switched tasks at least once. Distinct schedules are counted by the hash of the pick trace.",
 		Assumptions: []string{
 			"tasks are real goroutines; which one logically proceeds is decided only by the seeded turn variable (//go:norace code + runtime.Gosched under GOMAXPROCS=1), so the scheduler adds no happens-before edge and the race detector sees exactly the library's own synchronisation",
@@ -97,6 +103,22 @@ func (c19Driver) Generate(t *tape.Tape, tier string) core.Case {
 		for i := 0; i < n; i++ {
 			g := model.Generate(t.Sub(fmt.Sprintf("scenario%d", i)), profC19(t.Sub("profile")))
 			c.Scenarios = append(c.Scenarios, g.S)
+		}
+		if dt := t.Sub("disk"); dt.Chance(1, 4) {
+			c.Disk = true
+			for _, sc := range c.Scenarios {
+				var roots []string
+				for _, m := range sc.Mods {
+					if dt.Chance(1, 2) {
+						roots = append(roots, m.Name)
+					}
+				}
+				if len(roots) == 0 {
+					roots = []string{sc.Mods[dt.Intn(len(sc.Mods))].Name}
+				}
+				c.Roots = append(c.Roots, roots)
+			}
+			return c
 		}
 		if st := t.Sub("splice"); st.Chance(1, 4) {
 			lexical := []string{c18Raws[6], c18Raws[7], c18Raws[8], "  leaf zq { type string; description 'unterminated; }\n", "  /* unterminated comment\n"}
@@ -255,6 +277,29 @@ func loadAndProcessSpliced(s *model.Scenario, splice string) (*yang.Modules, []e
 	return ms, append(errs, ms.Process()...)
 }
 
+// readAndProcess is the disk-backed pipeline of task i: search path, Read by
+// module name, Process (which fetches imports and includes on demand).
+func readAndProcess(c *c19Case, i int) (*yang.Modules, []error) {
+	ms := yang.NewModules()
+	ms.AddPath("t" + itoa(i))
+	var errs []error
+	if i < len(c.Roots) {
+		for _, r := range c.Roots[i] {
+			if err := ms.Read(r); err != nil {
+				errs = append(errs, err)
+			}
+		}
+	}
+	return ms, append(errs, ms.Process()...)
+}
+
+func itoa(i int) string {
+	if i < 10 {
+		return string(rune('0' + i))
+	}
+	return itoa(i/10) + string(rune('0'+i%10))
+}
+
 func spliceOf(c *c19Case, i int) string {
 	if i < len(c.Splice) {
 		return c.Splice[i]
@@ -400,10 +445,24 @@ func (c19Driver) Run(cc core.Case) core.Outcome {
 	case "k1":
 		got := make([]string, len(c.Scenarios))
 		tasks := make([]func(), len(c.Scenarios))
+		pipeline := func(i int) (*yang.Modules, []error) {
+			return loadAndProcessSpliced(c.Scenarios[i], spliceOf(c, i))
+		}
+		if c.Disk {
+			files := map[string]string{}
+			for i, sc := range c.Scenarios {
+				for n, txt := range model.RenderAll(sc) {
+					files["t"+itoa(i)+"/"+n] = txt
+				}
+			}
+			zzsim.FS = fsim.NewStatic(files) // read-only: tasks share it
+			pipeline = func(i int) (*yang.Modules, []error) { return readAndProcess(c, i) }
+			o.Count("probe.k1_from_disk", 1)
+		}
 		for i := range c.Scenarios {
 			i := i
 			tasks[i] = func() {
-				ms, errs := loadAndProcessSpliced(c.Scenarios[i], spliceOf(c, i))
+				ms, errs := pipeline(i)
 				got[i] = fullOutcome(ms, errs)
 			}
 		}
@@ -413,8 +472,8 @@ func (c19Driver) Run(cc core.Case) core.Outcome {
 		// The sequential expectation is computed after the concurrent phase, so
 		// that process-wide state is as cold as the process for the tasks.
 		want := make([]string, len(c.Scenarios))
-		for i, s := range c.Scenarios {
-			ms, errs := loadAndProcessSpliced(s, spliceOf(c, i))
+		for i := range c.Scenarios {
+			ms, errs := pipeline(i)
 			want[i] = fullOutcome(ms, errs)
 		}
 		if len(c.Splice) > 0 {
@@ -633,6 +692,9 @@ func (c19Driver) Shrink(cc core.Case) []core.Case {
 			n.Scenarios = append(n.Scenarios[:i], n.Scenarios[i+1:]...)
 			if i < len(n.Splice) {
 				n.Splice = append(n.Splice[:i], n.Splice[i+1:]...)
+			}
+			if i < len(n.Roots) {
+				n.Roots = append(n.Roots[:i], n.Roots[i+1:]...)
 			}
 			out = append(out, n)
 		}
